@@ -21,10 +21,12 @@ import (
 	"fmt"
 	"os"
 	"path/filepath"
+	"runtime"
 	"sort"
 	"strconv"
 	"strings"
 	"sync"
+	"sync/atomic"
 	"time"
 
 	openfgav1 "github.com/openfga/api/proto/openfga/v1"
@@ -33,6 +35,7 @@ import (
 	"google.golang.org/grpc/metadata"
 	"google.golang.org/grpc/status"
 
+	"github.com/openfga/openfga/internal/graph"
 	"github.com/openfga/openfga/internal/verifharness/lib/rec"
 	"github.com/openfga/openfga/internal/verifharness/lib/scen"
 	"github.com/openfga/openfga/internal/verifharness/lib/storegen"
@@ -105,7 +108,10 @@ type Desc struct {
 	Leaked    []string `json:"leaked_goroutines,omitempty"`
 	IterSites []string `json:"unstopped_iterators,omitempty"`
 	Overruns  []string `json:"overruns,omitempty"`
-	NT        *bool    `json:"nt,omitempty"`
+	// overruns that did not repeat when the request was re-executed alone (not a violation)
+	Inconclusive []string `json:"inconclusive_overruns,omitempty"`
+	HangDumps    []string `json:"hang_dumps,omitempty"`
+	NT           *bool    `json:"nt,omitempty"`
 }
 
 type streamSrv struct {
@@ -142,8 +148,12 @@ type obs struct {
 	elapsedUs int64
 	class     string
 	n         int
-	items     [4]int // batch check items: ok, deadline, cancelled, other error
-	hung      bool   // abandoned by the watchdog: the call never returned
+	items     [4]int       // batch check items: ok, deadline, cancelled, other error
+	hung      bool         // abandoned by the watchdog: the call never returned
+	dump      string       // summary of the goroutine dump taken when the call was abandoned
+	confirmed bool         // the overrun happened again when the request was re-executed alone
+	done      chan callRes // abandoned call: receives when it finally returns
+	start     time.Time
 }
 
 type runner struct {
@@ -154,6 +164,8 @@ type runner struct {
 	ds  *countDS
 	srv *server.Server
 	cfg Config
+
+	truthDumps []string
 }
 
 func classOf(err error) string {
@@ -257,7 +269,8 @@ func (x *runner) exec(c call) obs {
 		cf()
 	}
 	if hung {
-		return obs{api: c.api, effUs: eff, elapsedUs: el.Microseconds(), class: "hung", hung: true}
+		dump := dumpAll(fmt.Sprintf("%s %s#%s@%s type=%s abandoned after %v (effective deadline %d us)", apiNames[c.api], c.obj, c.rel, c.user, c.typ, el, eff))
+		return obs{api: c.api, effUs: eff, elapsedUs: el.Microseconds(), class: "hung", hung: true, dump: dump, done: done, start: start}
 	}
 	return obs{api: c.api, effUs: eff, elapsedUs: el.Microseconds(), class: classOf(res.err), n: res.n, items: res.items}
 }
@@ -436,7 +449,7 @@ func (x *runner) genCall() (call, bool) {
 func (x *runner) serverOpts() []server.OpenFGAServiceV1Option {
 	c := x.cfg
 	opts := []server.OpenFGAServiceV1Option{
-		server.WithDatastore(x.ds),
+		server.WithDatastore(noCloseDS{x.ds}),
 		server.WithLogger(logger.NewNoopLogger()),
 		server.WithResolveNodeLimit(uint32(c.Depth)),
 		server.WithResolveNodeBreadthLimit(uint32(c.Breadth)),
@@ -583,9 +596,14 @@ func (x *runner) truth(ctx context.Context, in *scen.Intern) (rec.V, rec.V, rec.
 				if truthHung {
 					break
 				}
-				wctx, wcancel := context.WithTimeout(ctx, truthWatchdog)
-				out, _ := x.env.Check(wctx, resolver, o, rel, sub, nil)
-				wcancel()
+				out := x.truthCheck(ctx, resolver, o, rel, sub)
+				if out == scen.OutTimeout {
+					// confirm: the same Check once more, alone
+					if out = x.truthCheck(ctx, resolver, o, rel, sub); out != scen.OutTimeout {
+						x.w.Stat("inconclusive_overruns", 1)
+						fmt.Fprintf(os.Stderr, "c20: inconclusive hang of the no-deadline Check %s#%s@%s (answered on re-execution)\n", o, rel, sub)
+					}
+				}
 				if out == scen.OutTimeout {
 					// the first hang ends the no-deadline checks of this scenario and of the run
 					truthHung = true
@@ -716,12 +734,20 @@ func runScenario(w *rec.Writer, seed uint64, tier string) {
 	g1 := settle(2 * time.Second)
 
 	var calls []rec.V
-	var overruns []string
+	var overruns, inconclusive, hangDumps []string
 	var iterSites []string
 	iterLive := 0
-	for b := 0; b < cfg.Batches; b++ {
+	batches := cfg.Batches
+	if cfg.Pipeline {
+		batches++ // the cancellation sweep, see sweepCalls
+	}
+	for b := 0; b < batches; b++ {
 		var cs []call
-		for len(cs) < cfg.CallsPerBatch {
+		if b == cfg.Batches {
+			cs = x.sweepCalls()
+			w.Stat("cancellation_sweeps", 1)
+		}
+		for b < cfg.Batches && len(cs) < cfg.CallsPerBatch {
 			if c, ok := x.genCall(); ok {
 				cs = append(cs, c)
 			} else if len(sh.Targets) == 0 || len(sh.Users) == 0 || len(sh.ObjTypes) == 0 {
@@ -737,12 +763,67 @@ func runScenario(w *rec.Writer, seed uint64, tier string) {
 			go x.goExec(cs[i], &out[i], &wg, sem)
 		}
 		wg.Wait()
+		// an overrun counts only when CONFIRMED: the same request, re-executed alone (no other
+		// driver load), twice on the same server and once on a fresh server over the same data,
+		// overruns again.  A stall that does not repeat is reported as inconclusive.
+		for i := range out {
+			if out[i].elapsedUs <= out[i].effUs+slack.Microseconds() {
+				continue
+			}
+			w.Stat("overruns_observed", 1)
+			first := out[i]
+			for attempt := 0; attempt < 3 && !out[i].confirmed; attempt++ {
+				var again obs
+				if attempt < 2 {
+					again = x.exec(cs[i])
+				} else {
+					again = x.execFresh(cs[i])
+				}
+				if again.elapsedUs > again.effUs+slack.Microseconds() {
+					out[i] = again
+					out[i].confirmed = true
+					if out[i].dump == "" {
+						out[i].dump = first.dump
+					}
+				}
+			}
+			if !out[i].confirmed && first.hung {
+				// the abandoned call itself: if it still has not returned after the re-executions
+				// and a further grace period, it is a hang, not a stall
+				select {
+				case <-first.done:
+					w.Stat("abandoned_calls_returned_late", 1)
+				case <-time.After(grace):
+					out[i] = first
+					out[i].elapsedUs = time.Since(first.start).Microseconds()
+					out[i].confirmed = true
+					w.Stat("abandoned_calls_never_returned", 1)
+				}
+			}
+			if out[i].confirmed {
+				w.Stat("overruns_confirmed", 1)
+			} else {
+				w.Stat("inconclusive_overruns", 1)
+				fmt.Fprintf(os.Stderr, "c20: inconclusive overrun (not repeated in 3 re-executions): %s %s#%s@%s type=%s: %d us, effective deadline %d us; scenario seed %d\n",
+					apiNames[first.api], cs[i].obj, cs[i].rel, cs[i].user, cs[i].typ, first.elapsedUs, first.effUs, seed)
+				inconclusive = append(inconclusive, fmt.Sprintf("%s %s#%s@%s type=%s: %d us, effective deadline %d us (hung=%v) %s",
+					apiNames[first.api], cs[i].obj, cs[i].rel, cs[i].user, cs[i].typ, first.elapsedUs, first.effUs, first.hung, first.dump))
+				out[i] = first
+			}
+		}
 		for i, o := range out {
-			if o.hung {
+			if o.hung && o.confirmed {
 				abortRun = true
 				w.Stat("calls_never_returned", 1)
 			}
-			calls = append(calls, rec.L(rec.I(o.api), rec.I64(o.effUs), rec.I64(o.elapsedUs)))
+			conf := 0
+			if o.confirmed {
+				conf = 1
+			}
+			if o.dump != "" && o.confirmed {
+				hangDumps = append(hangDumps, o.dump)
+			}
+			calls = append(calls, rec.L(rec.I(o.api), rec.I64(o.effUs), rec.I64(o.elapsedUs), rec.I(conf)))
 			if os.Getenv("C20_DEBUG") == "2" {
 				fmt.Fprintf(os.Stderr, "%s %-20s %-10s el=%7d eff=%7d n=%d items=%v %s#%s@%s t=%s\n", kind, apiNames[o.api], o.class, o.elapsedUs, o.effUs, o.n, o.items, cs[i].obj, cs[i].rel, cs[i].user, cs[i].typ)
 			}
@@ -768,7 +849,7 @@ func runScenario(w *rec.Writer, seed uint64, tier string) {
 			if cs[i].cancelUs > 0 {
 				w.Stat("calls_with_client_cancel", 1)
 			}
-			if o.elapsedUs > o.effUs+slack.Microseconds() {
+			if o.confirmed {
 				overruns = append(overruns, fmt.Sprintf("%s %s#%s@%s type=%s: %d us, effective deadline %d us",
 					apiNames[o.api], cs[i].obj, cs[i].rel, cs[i].user, cs[i].typ, o.elapsedUs, o.effUs))
 			}
@@ -826,13 +907,151 @@ func runScenario(w *rec.Writer, seed uint64, tier string) {
 	w.Stat("datastore_reads", int(ds.reads.Load()))
 
 	desc.Leaked, desc.IterSites, desc.Overruns = leakedDesc, iterSites, overruns
+	desc.Inconclusive, desc.HangDumps = inconclusive, append(hangDumps, x.truthDumps...)
 	sort.Strings(desc.IterSites)
 	w.Case(desc, rec.I(1), rec.I(withModel), model, conds, tuples, atoms, rec.I(cfg.Depth), subjects,
 		rec.L(calls...), rec.I64(slack.Microseconds()), rec.I(leakedN), rec.I64(ds.opens.Load()), rec.I64(ds.stops.Load()), rec.I(iterLive), rec.I64(truthWatchdog.Microseconds()))
 }
 
+// noCloseDS: Server.Close closes its datastore; the scenario's datastore outlives its servers.
+type noCloseDS struct{ *countDS }
+
+func (noCloseDS) Close() {}
+
+// execFresh re-executes a call on a fresh server over the same datastore.
+func (x *runner) execFresh(c call) obs {
+	old := x.srv
+	x.srv = server.MustNewServerWithOpts(x.serverOpts()...)
+	o := x.exec(c)
+	fresh := x.srv
+	x.srv = old
+	done := make(chan struct{})
+	go func() { fresh.Close(); close(done) }()
+	select {
+	case <-done:
+	case <-time.After(10 * time.Second):
+	}
+	return o
+}
+
+var dumpDir string
+var dumpSeq int32
+
+// dumpAll writes the stacks of all goroutines to a side file and returns a summary: the file
+// name and the most frequent (state, innermost openfga/driver frame) pairs.
+func dumpAll(what string) string {
+	buf := make([]byte, 1<<22)
+	for {
+		n := runtime.Stack(buf, true)
+		if n < len(buf) {
+			buf = buf[:n]
+			break
+		}
+		buf = make([]byte, 2*len(buf))
+	}
+	name := ""
+	if dumpDir != "" {
+		name = filepath.Join(dumpDir, fmt.Sprintf("c20-hang-%d-%d.txt", os.Getpid(), atomic.AddInt32(&dumpSeq, 1)))
+		_ = os.WriteFile(name, append([]byte(what+"\n\n"), buf...), 0o644)
+	}
+	count := map[string]int{}
+	for _, blk := range strings.Split(string(buf), "\n\n") {
+		lines := strings.Split(strings.TrimSpace(blk), "\n")
+		if len(lines) < 2 || !strings.HasPrefix(lines[0], "goroutine ") {
+			continue
+		}
+		state := lines[0][strings.Index(lines[0], "["):]
+		if i := strings.IndexAny(state, ",]"); i > 0 {
+			state = state[1:i]
+		}
+		site := fnName(lines[1])
+		for k := 1; k < len(lines); k += 2 {
+			if strings.Contains(lines[k], "openfga/") || strings.HasPrefix(lines[k], "main.") {
+				site = fnName(lines[k])
+				break
+			}
+		}
+		count[state+" "+site]++
+	}
+	type kv struct {
+		k string
+		n int
+	}
+	var kvs []kv
+	for k, n := range count {
+		kvs = append(kvs, kv{k, n})
+	}
+	sort.Slice(kvs, func(i, j int) bool { return kvs[i].n > kvs[j].n || (kvs[i].n == kvs[j].n && kvs[i].k < kvs[j].k) })
+	var parts []string
+	for i, e := range kvs {
+		if i >= 14 {
+			break
+		}
+		parts = append(parts, fmt.Sprintf("%dx %s", e.n, e.k))
+	}
+	return fmt.Sprintf("dump=%s goroutines=%d: %s", name, len(count), strings.Join(parts, "; "))
+}
+
+// truthCheck: the real Check (default strategy) under the watchdog; shortly before the watchdog
+// expires the goroutine stacks are dumped, so that a hang shows where it sits.
+func (x *runner) truthCheck(ctx context.Context, resolver graph.CheckResolver, o, rel, sub string) int {
+	wctx, wcancel := context.WithTimeout(ctx, truthWatchdog)
+	defer wcancel()
+	var mu sync.Mutex
+	t := time.AfterFunc(truthWatchdog-time.Second, func() {
+		d := dumpAll(fmt.Sprintf("no-deadline Check %s#%s@%s still running after %v", o, rel, sub, truthWatchdog-time.Second))
+		mu.Lock()
+		x.truthDumps = append(x.truthDumps, d)
+		mu.Unlock()
+	})
+	out, _ := x.env.Check(wctx, resolver, o, rel, sub, nil)
+	t.Stop()
+	mu.Lock()
+	defer mu.Unlock()
+	if out != scen.OutTimeout {
+		x.truthDumps = nil
+	}
+	return out
+}
+
+// sweepCalls: for the pipeline engine, the same ListObjects / StreamedListObjects request on a
+// recursive relation cancelled by the client at evenly spread points of its own (uncancelled)
+// running time: cancellation in the middle of reads and broadcasts, not only at the ends.
+func (x *runner) sweepCalls() []call {
+	var cs []call
+	for tries := 0; tries < 40 && len(cs) == 0; tries++ {
+		c, ok := x.genCall()
+		if !ok || (c.api != apiLO && c.api != apiSLO) {
+			continue
+		}
+		c.timeoutUs, c.cancelUs = 100000, 0
+		t0 := x.exec(c).elapsedUs
+		if t0 < 200 {
+			t0 = 200
+		}
+		if t0 > 60000 {
+			t0 = 60000
+		}
+		k := x.cfg.CallsPerBatch + 2
+		for i := 1; i <= k; i++ {
+			d := c
+			d.timeoutUs = 0
+			d.cancelUs = int(t0) * i / (k + 1)
+			if d.cancelUs < 1 {
+				d.cancelUs = 1
+			}
+			if i%2 == 0 {
+				d.api = apiLO + apiSLO - c.api
+			}
+			cs = append(cs, d)
+		}
+	}
+	return cs
+}
+
 func (x *runner) closeServer(done chan struct{}) {
 	x.srv.Close()
+	x.ds.Close()
 	close(done)
 }
 
@@ -860,6 +1079,7 @@ func main() {
 	storegen.ScratchBase = filepath.Join(os.TempDir(), "c20")
 	defer storegen.Cleanup()
 	inject = os.Getenv("C20_INJECT")
+	dumpDir = filepath.Dir(o.Out)
 	if os.Getenv("C20_DEBUG") != "" {
 		debugSlow = func(n int, sites []string) { fmt.Fprintln(os.Stderr, "slow iterators:", n, sites) }
 	}
